@@ -17,6 +17,8 @@ GROUPS = {
     'SrcPitch': dict(gen=['SrcRel', 'SrcPitch', 'KindPreds'], modules=['MV.Props.TiePitch', 'MV.Props.TieKinds'],
                      kernels=['v2s', 'npr', 'cscale', 'cchrom', 'tscale']),
     'SrcTonality': dict(gen=['SrcTonality'], modules=['MV.Props.TieTonality'], kernels=['tadd', 'tsub', 'teq']),
+    'SrcOps': dict(gen=['SrcRel', 'SrcPitch', 'SrcTonality', 'SrcOps'], modules=['MV.Props.TieOps'],
+                   kernels=['noabs', 'no', 'neq', 'to', 'tflat', 'tsharp', 'co', 'cmod', 'parse']),
 }
 HELPERS = ['MV.Lemmas.PyTie']
 
@@ -97,16 +99,79 @@ def cases(rng, kernel, n):
                 f = lambda: '1' if a == b else '0'
             out.append(([enc_ton(a), enc_ton(b)], py_res(f), {'a': [a.degree, a.mode, a.octave], 'b': [b.degree, b.mode, b.octave]},
                         [f'norm={0 <= a.degree < 12 and 0 <= b.degree < 12}']))
+    elif kernel in ('noabs', 'no'):
+        kinds = gen.NONREL + gen.REL + ['d', 'x', 'r', 'l']
+        for i in range(n):
+            nt = gen.rand_note(rng, kinds=kinds, vals=(-9, 12), octs=(-3, 3), dur=gen.rand_duration(rng), p_amp=0.3)
+            k = rng.randint(-4, 4)
+            f = (lambda: enc_note(nt.oabs(k)).s) if kernel == 'noabs' else (lambda: enc_note(nt.o(k)).s)
+            out.append(([enc_note(nt), k], py_res(f), {'note': enc_note(nt).s, 'k': k}, [f'kind={nt.type}']))
+    elif kernel == 'neq':
+        kinds = gen.NONREL + gen.REL + ['d', 'x', 'r', 'l']
+        for i in range(n):
+            a = gen.rand_note(rng, kinds=kinds, vals=(-2, 3), octs=(-1, 1), dur=gen.rand_duration(rng), p_amp=0.3)
+            b = a.copy()
+            which = rng.choice(['same', 'type', 'val', 'octave', 'duration', 'mode', 'accident', 'amp', 'tags', 'random'])
+            if which == 'type':
+                b.type = rng.choice(kinds)
+            elif which == 'val':
+                b.val += rng.choice([-1, 1, 7])
+            elif which == 'octave':
+                b.octave += rng.choice([-1, 1])
+            elif which == 'duration':
+                b.duration = gen.rand_duration(rng)
+            elif which == 'mode':
+                b.mode = rng.choice(gen.MODES + [None])
+            elif which == 'accident':
+                b.accident = rng.choice(gen.ACCS + [None])
+            elif which == 'amp':
+                b.amp = rng.choice([30, 66, 100])
+            elif which == 'tags':
+                b.tags = {'x'}
+            elif which == 'random':
+                b = gen.rand_note(rng, kinds=kinds, vals=(-2, 3), octs=(-1, 1), dur=gen.rand_duration(rng))
+            out.append(([enc_note(a), enc_note(b)], py_res(lambda: '1' if a == b else '0'),
+                        {'a': enc_note(a).s, 'b': enc_note(b).s}, [f'diff={which}']))
+    elif kernel in ('to', 'tflat', 'tsharp'):
+        for i in range(n):
+            t = Tonality(rng.randint(-3, 14), rng.choice(gen.MODES), rng.randint(-3, 3))
+            k = rng.randint(-4, 4)
+            if kernel == 'to':
+                out.append(([enc_ton(t), k], py_res(lambda: _show_ton(t.o(k))), {'t': [t.degree, t.mode, t.octave], 'k': k}, [f'k={k}']))
+            else:
+                f = (lambda: _show_ton(t.b)) if kernel == 'tflat' else (lambda: _show_ton(t.s))
+                out.append(([enc_ton(t)], py_res(f), {'t': [t.degree, t.mode, t.octave]}, [f'deg={t.degree}']))
+    elif kernel in ('co', 'cmod'):
+        show = lambda r: f'{_show_ton(r.tonality)} {int(r.octave)} {int(r.element)}'
+        for i in range(n):
+            c, text = gen.rand_chord(rng, octaves=(-3, 3))
+            if kernel == 'co':
+                k = rng.randint(-4, 4)
+                out.append(([enc_chord(c, with_parts=False), k], py_res(lambda: show(c.o(k))), {'chord': str(c), 'k': k}, [f'k={k}']))
+            else:
+                t = Tonality(rng.randint(-3, 14), rng.choice(gen.MODES), rng.randint(-3, 3))
+                out.append(([enc_chord(c, with_parts=False), enc_ton(t)], py_res(lambda: show(c % t)),
+                            {'chord': str(c), 't': [t.degree, t.mode, t.octave]}, [f'coct={c.octave}']))
+    elif kernel == 'parse':
+        from core import frac_str
+        for i in range(n):
+            c, text = gen.rand_chord(rng, octaves=(-2, 2))
+            p = rng.randint(-70, 80)
+            out.append(([enc_chord(c, with_parts=False), p],
+                        py_res(lambda: (lambda r: f'{r.type} {int(r.val)} {int(r.octave)} {frac_str(r.duration)}')(c.parse(p))),
+                        {'chord': str(c), 'pitch': p}, [f'mode={c.tonality.mode}', f'elem={c.element}']))
     else:
         raise KeyError(kernel)
     return out
 
 
-def run(ctx, groups, quick=400, thorough=6000):
+def run(ctx, groups, quick=400, thorough=6000, kernels=None):
     """kernel-level streams for the given tie groups; budgets are multiplied when the proof tie is lost"""
     lost = getattr(ctx, 'src_tie_lost', set())
     for g in groups:
         for k in GROUPS[g]['kernels']:
+            if kernels is not None and k not in kernels:
+                continue
             n = ctx.n(quick, thorough) * (4 if g in lost else 1)
             cs = cases(random.Random(f'{ctx.seed}:{ctx.prop}:{k}'), k, n)   # own stream: the property's streams keep theirs
             ctx.compare(f'kernel:{k}', 'Src',
